@@ -117,7 +117,7 @@ pub fn bij_s2(x: u128) -> u128 {
 
 // ------------------------------------------------------------------------------------------------ leaf lemmas
 
-//@ harness name=aria_leaf_a prop=C06,C01,C20 tier=quick bits=128 est=150 desc="L: crate::utils::a(x) (sum of DIFFUSE_CONSTS[i] * byte_i, carry-free multiplication trick, overflow-checked) == RFC 5794 diffusion layer A (16 XOR equations) for all 2^128 x; also A(A(x)) == x on the real code"
+//@ harness name=aria_leaf_a prop=C06,C01,C20 tier=quick bits=128 est=135 desc="L: crate::utils::a(x) (sum of DIFFUSE_CONSTS[i] * byte_i, carry-free multiplication trick, overflow-checked) == RFC 5794 diffusion layer A (16 XOR equations) for all 2^128 x; also A(A(x)) == x on the real code"
 verif_harness! {
     name: aria_leaf_a,
     bytes: 16,
@@ -153,7 +153,7 @@ verif_harness! {
     }
 }
 
-//@ harness name=aria_leaf_sl2 prop=C06,C01,C20 tier=quick bits=128 est=15 desc="L: crate::utils::sl2(x) == SL2(x) of RFC 5794 for all 2^128 x"
+//@ harness name=aria_leaf_sl2 prop=C06,C01,C20 tier=quick bits=128 est=10 desc="L: crate::utils::sl2(x) == SL2(x) of RFC 5794 for all 2^128 x"
 verif_harness! {
     name: aria_leaf_sl2,
     bytes: 16,
@@ -164,7 +164,7 @@ verif_harness! {
     }
 }
 
-//@ harness name=aria_leaf_sl_inv prop=C01 tier=quick bits=128 est=10 desc="L: the oracle's substitution layers are mutually inverse, SL2(SL1(x)) == x and SL1(SL2(x)) == x for all 2^128 x (licence for abstracting them by an uninterpreted bijection pair in the round-trip harnesses)"
+//@ harness name=aria_leaf_sl_inv prop=C01 tier=quick bits=128 est=15 desc="L: the oracle's substitution layers are mutually inverse, SL2(SL1(x)) == x and SL1(SL2(x)) == x for all 2^128 x (licence for abstracting them by an uninterpreted bijection pair in the round-trip harnesses)"
 verif_harness! {
     name: aria_leaf_sl_inv,
     bytes: 16,
@@ -177,7 +177,7 @@ verif_harness! {
     }
 }
 
-//@ harness name=aria_leaf_a_invol prop=C01 tier=quick bits=128 est=85 desc="L: the oracle's diffusion layer is an involution, A(A(x)) == x for all 2^128 x (cut lemma of the round-trip harnesses)"
+//@ harness name=aria_leaf_a_invol prop=C01 tier=quick bits=128 est=75 desc="L: the oracle's diffusion layer is an involution, A(A(x)) == x for all 2^128 x (cut lemma of the round-trip harnesses)"
 verif_harness! {
     name: aria_leaf_a_invol,
     bytes: 16,
@@ -188,7 +188,7 @@ verif_harness! {
     }
 }
 
-//@ harness name=aria_leaf_a_lin prop=C01 tier=quick bits=256 est=15 desc="L: the oracle's diffusion layer is GF(2)-linear, A(x ^ y) == A(x) ^ A(y) for all 2^256 (x, y) (cut lemma of the round-trip harnesses)"
+//@ harness name=aria_leaf_a_lin prop=C01 tier=quick bits=256 est=10 desc="L: the oracle's diffusion layer is GF(2)-linear, A(x ^ y) == A(x) ^ A(y) for all 2^256 (x, y) (cut lemma of the round-trip harnesses)"
 verif_harness! {
     name: aria_leaf_a_lin,
     bytes: 32,
@@ -237,14 +237,14 @@ macro_rules! aria_wire {
     };
 }
 
-//@ harness name=aria128_wire_enc prop=C06,C20 tier=quick bits=256 stub=1 est=35 desc="W: Aria128::new(key).encrypt_block(b) == RFC 5794 key schedule + 12 rounds, all 2^128 keys, all blocks; fo/fe/sl2 uninterpreted (shared with the oracle), a in oracle form"
-//@ harness name=aria128_wire_dec prop=C06,C20 tier=quick bits=256 stub=1 est=35 desc="W: Aria128::new(key).decrypt_block(b) == RFC 5794 decryption (dk derived through A), all keys, all blocks; fo/fe/sl2 uninterpreted, a in oracle form"
+//@ harness name=aria128_wire_enc prop=C06,C20 tier=quick bits=256 stub=1 est=50 desc="W: Aria128::new(key).encrypt_block(b) == RFC 5794 key schedule + 12 rounds, all 2^128 keys, all blocks; fo/fe/sl2 uninterpreted (shared with the oracle), a in oracle form"
+//@ harness name=aria128_wire_dec prop=C06,C20 tier=quick bits=256 stub=1 est=55 desc="W: Aria128::new(key).decrypt_block(b) == RFC 5794 decryption (dk derived through A), all keys, all blocks; fo/fe/sl2 uninterpreted, a in oracle form"
 aria_wire!(aria128_wire_enc, aria128_wire_dec, Aria128, 16);
-//@ harness name=aria192_wire_enc prop=C06,C20 tier=quick bits=320 stub=1 est=35 desc="W: Aria192::new(key).encrypt_block(b) == RFC 5794 key schedule + 14 rounds, all 2^192 keys, all blocks; fo/fe/sl2 uninterpreted, a in oracle form"
-//@ harness name=aria192_wire_dec prop=C06,C20 tier=quick bits=320 stub=1 est=35 desc="W: Aria192::new(key).decrypt_block(b) == RFC 5794 decryption, all keys, all blocks; fo/fe/sl2 uninterpreted, a in oracle form"
+//@ harness name=aria192_wire_enc prop=C06,C20 tier=quick bits=320 stub=1 est=60 desc="W: Aria192::new(key).encrypt_block(b) == RFC 5794 key schedule + 14 rounds, all 2^192 keys, all blocks; fo/fe/sl2 uninterpreted, a in oracle form"
+//@ harness name=aria192_wire_dec prop=C06,C20 tier=quick bits=320 stub=1 est=65 desc="W: Aria192::new(key).decrypt_block(b) == RFC 5794 decryption, all keys, all blocks; fo/fe/sl2 uninterpreted, a in oracle form"
 aria_wire!(aria192_wire_enc, aria192_wire_dec, Aria192, 24);
-//@ harness name=aria256_wire_enc prop=C06,C20 tier=quick bits=384 stub=1 est=35 desc="W: Aria256::new(key).encrypt_block(b) == RFC 5794 key schedule + 16 rounds, all 2^256 keys, all blocks; fo/fe/sl2 uninterpreted, a in oracle form"
-//@ harness name=aria256_wire_dec prop=C06,C20 tier=quick bits=384 stub=1 est=50 desc="W: Aria256::new(key).decrypt_block(b) == RFC 5794 decryption, all keys, all blocks; fo/fe/sl2 uninterpreted, a in oracle form"
+//@ harness name=aria256_wire_enc prop=C06,C20 tier=quick bits=384 stub=1 est=60 desc="W: Aria256::new(key).encrypt_block(b) == RFC 5794 key schedule + 16 rounds, all 2^256 keys, all blocks; fo/fe/sl2 uninterpreted, a in oracle form"
+//@ harness name=aria256_wire_dec prop=C06,C20 tier=quick bits=384 stub=1 est=65 desc="W: Aria256::new(key).decrypt_block(b) == RFC 5794 decryption, all keys, all blocks; fo/fe/sl2 uninterpreted, a in oracle form"
 aria_wire!(aria256_wire_enc, aria256_wire_dec, Aria256, 32);
 
 // ------------------------------------------------------------------------------------------------ round trip (C01)
@@ -284,12 +284,12 @@ macro_rules! aria_rt {
     };
 }
 
-//@ harness name=aria128_rt_ed prop=C01 tier=quick bits=256 stub=1 est=45 desc="W: Aria128::new(key): decrypt_block(encrypt_block(b)) == b for all 2^128 keys and all blocks; real key schedule (ek and dk) and round loops, SL1/SL2 an uninterpreted bijection pair, A in oracle form with consequences of aria_leaf_a_invol / aria_leaf_a_lin as cut assumptions"
-//@ harness name=aria128_rt_de prop=C01 tier=quick bits=256 stub=1 est=55 desc="W: Aria128::new(key): encrypt_block(decrypt_block(b)) == b for all keys and blocks; SL1/SL2 an uninterpreted bijection pair, A in oracle form with consequences of aria_leaf_a_invol / aria_leaf_a_lin as cut assumptions"
+//@ harness name=aria128_rt_ed prop=C01 tier=quick bits=256 stub=1 est=35 desc="W: Aria128::new(key): decrypt_block(encrypt_block(b)) == b for all 2^128 keys and all blocks; real key schedule (ek and dk) and round loops, SL1/SL2 an uninterpreted bijection pair, A in oracle form with consequences of aria_leaf_a_invol / aria_leaf_a_lin as cut assumptions"
+//@ harness name=aria128_rt_de prop=C01 tier=quick bits=256 stub=1 est=60 desc="W: Aria128::new(key): encrypt_block(decrypt_block(b)) == b for all keys and blocks; SL1/SL2 an uninterpreted bijection pair, A in oracle form with consequences of aria_leaf_a_invol / aria_leaf_a_lin as cut assumptions"
 aria_rt!(aria128_rt_ed, aria128_rt_de, Aria128, 16);
 //@ harness name=aria192_rt_ed prop=C01 tier=quick bits=320 stub=1 est=65 desc="W: Aria192::new(key): decrypt_block(encrypt_block(b)) == b for all 2^192 keys and all blocks; SL1/SL2 an uninterpreted bijection pair, A in oracle form with consequences of aria_leaf_a_invol / aria_leaf_a_lin as cut assumptions"
-//@ harness name=aria192_rt_de prop=C01 tier=quick bits=320 stub=1 est=65 desc="W: Aria192::new(key): encrypt_block(decrypt_block(b)) == b for all keys and blocks; SL1/SL2 an uninterpreted bijection pair, A in oracle form with consequences of aria_leaf_a_invol / aria_leaf_a_lin as cut assumptions"
+//@ harness name=aria192_rt_de prop=C01 tier=quick bits=320 stub=1 est=60 desc="W: Aria192::new(key): encrypt_block(decrypt_block(b)) == b for all keys and blocks; SL1/SL2 an uninterpreted bijection pair, A in oracle form with consequences of aria_leaf_a_invol / aria_leaf_a_lin as cut assumptions"
 aria_rt!(aria192_rt_ed, aria192_rt_de, Aria192, 24);
-//@ harness name=aria256_rt_ed prop=C01 tier=quick bits=384 stub=1 est=85 desc="W: Aria256::new(key): decrypt_block(encrypt_block(b)) == b for all 2^256 keys and all blocks; SL1/SL2 an uninterpreted bijection pair, A in oracle form with consequences of aria_leaf_a_invol / aria_leaf_a_lin as cut assumptions"
-//@ harness name=aria256_rt_de prop=C01 tier=quick bits=384 stub=1 est=55 desc="W: Aria256::new(key): encrypt_block(decrypt_block(b)) == b for all keys and blocks; SL1/SL2 an uninterpreted bijection pair, A in oracle form with consequences of aria_leaf_a_invol / aria_leaf_a_lin as cut assumptions"
+//@ harness name=aria256_rt_ed prop=C01 tier=quick bits=384 stub=1 est=45 desc="W: Aria256::new(key): decrypt_block(encrypt_block(b)) == b for all 2^256 keys and all blocks; SL1/SL2 an uninterpreted bijection pair, A in oracle form with consequences of aria_leaf_a_invol / aria_leaf_a_lin as cut assumptions"
+//@ harness name=aria256_rt_de prop=C01 tier=quick bits=384 stub=1 est=65 desc="W: Aria256::new(key): encrypt_block(decrypt_block(b)) == b for all keys and blocks; SL1/SL2 an uninterpreted bijection pair, A in oracle form with consequences of aria_leaf_a_invol / aria_leaf_a_lin as cut assumptions"
 aria_rt!(aria256_rt_ed, aria256_rt_de, Aria256, 32);
